@@ -28,10 +28,10 @@ CLAIMS["C08"] = dict(
           "(index, slice, nil, division, make), the retention counters stay within the documented maximum (representation invariant "
           "re-established at exit), a call returns a frame or an error and a returned frame is within the maximum, and the frame "
           "condition that Decode writes no byte of any array that existed before the call (so frames already returned are never altered). "
-          "Under full contracts: H264, H265, fragmented, KLV, VP8 decoders; under no-panic and bounded-retention contracts: MPEG-4 audio, MPEG-1 audio, MPEG-1 video, AC-3, VP9 "
+          "Under full contracts: H264, H265, fragmented, KLV, VP8 decoders; under no-panic and bounded-retention contracts: MPEG-4 audio, MPEG-1 audio, MPEG-1 video, AC-3, VP9, AV1, M-JPEG "
           "decoders; swept for no-panic with inferred invariants: LPCM, simple audio, MPEG-TS decoders, the PTSEqualsDTS classifier of all 22 formats (it runs on every incoming "
           "packet) and the tolerant RTCP unmarshaler."),
-    note=TRUST + "Packets are assumed to carry at most 65535 payload bytes (transport limit). Not decided: AV1 and M-JPEG decoders, readAUHeaders' index into its own result, pion and mediacommon parsers (assumed contracts).",
+    note=TRUST + "Packets are assumed to carry at most 65535 payload bytes (transport limit). Not decided: readAUHeaders' index into its own result, makeQuantizationTables' index into the package-level quantizer tables, pion and mediacommon parsers (assumed contracts).",
     design="DESIGN.md section 4, C08",
 )
 
